@@ -18,8 +18,8 @@ ASSUMPTIONS = ["documented deviations are part of the reference: accumulate of a
 
 
 def cases(tier, rng):
-    yield from s1.base_cases(tier, rng, s1.KINDS_ALL, s1.cons_exhaust, maxlen=4 if tier == "quick" else 5)
-    yield from s1.random_cases(tier, rng, s1.KINDS_ALL, 3000 if tier == "quick" else 60000, cons_kinds=("exhaust",))
+    yield from s1.base_cases(tier, rng, s1.KINDS_ALL, s1.cons_exhaust, tools_subset=s1.ITER_TOOLS, maxlen=4 if tier == "quick" else 5)
+    yield from s1.random_cases(tier, rng, s1.KINDS_ALL, 3000 if tier == "quick" else 60000, cons_kinds=("exhaust",), tools_subset=s1.ITER_TOOLS)
 
 
 def _proj(vis, out):
@@ -43,4 +43,4 @@ def search_cases(broken, rng):
             c = dict(case)
             c["srcs"] = [dict(s, kind=kind) for s in case["srcs"]]
             yield c
-    yield from s1.random_cases("quick", rng, s1.KINDS_ALL, 4000, cons_kinds=("exhaust",))
+    yield from s1.random_cases("quick", rng, s1.KINDS_ALL, 4000, cons_kinds=("exhaust",), tools_subset=s1.ITER_TOOLS)
